@@ -36,7 +36,12 @@ def decided_by(prop, verdicts, known_refuted):
     extra = (v['refuted_obligations'] or 0) - known_refuted.get(prop, 0)
     if extra > 0:
         return 'obligation(s) refuted (%d) + replay on the real code' % extra
-    return 'bounded stand-in only (all obligations still discharged)'
+    others = [c for c, w in sorted(verdicts.items()) if c != prop and w['exit'] == 1 and (w['refuted_obligations'] or 0) - known_refuted.get(c, 0) > 0]
+    unsup = re.search(r'unsupported=(\d+)', v.get('stats', ''))
+    note = 'bounded stand-in of %s' % prop + (' (its proof is undecided on the changed code: %s unsupported constructs)' % unsup.group(1) if unsup and unsup.group(1) != '0' else ' (its obligations still discharge)')
+    if others:
+        note += '; obligations of %s refuted (callee contract this property relies on)' % ', '.join(others)
+    return note
 
 
 def one(d):
@@ -52,6 +57,8 @@ def one(d):
             m['recheck'] = 'patch no longer applies to /repo HEAD'
         else:
             checks = sorted(m.get('checks', {m['property']: 0}))
+            if ALL_CHECKS and 'bounded' in m.get('decided_by', ''):
+                checks = ALL_IDS
             m['checks'] = run_checks(tree, checks)
             m['detected_by'] = [c for c, v in m['checks'].items() if v['exit'] == 1]
             m['decided_by'] = decided_by(m['property'], m['checks'], KNOWN_REFUTED)
@@ -65,6 +72,8 @@ def one(d):
 
 
 KNOWN_REFUTED = {}
+ALL_CHECKS = '--all-checks' in sys.argv
+ALL_IDS = ['C%02d' % i for i in range(1, 21)]
 
 
 def main():
